@@ -299,6 +299,35 @@ async fn storm(ctx: Ctx, idx: u64) -> Report {
     // Tokens per client IP (family, ip index) obtained from real get_peers exchanges.
     let mut tokens: HashMap<(bool, u8), Vec<u8>> = HashMap::new();
     let mut accepted_pairs: HashSet<(Id, SocketAddr)> = HashSet::new();
+    // A node that has been idle for a long time (no get_peers / announce_peer served for half an hour
+    // up to hours) must hand out a token that it accepts right away.
+    if !opts.read_only && rng.gen_bool(0.3) {
+        sleep_us(rng.gen_range(31 * 60 * SEC..8 * 3600 * SEC)).await;
+        let fam = rng.gen_bool(0.5);
+        let src = bed.client(fam, 0);
+        let ih = gen::rand_id(&mut rng);
+        let q = Krpc::query(gen::tid(&mut rng), gen::rand_id(&mut rng), Query::GetPeers { info_hash: ih, want: None });
+        let tok = bed.ask(src, &q).await.first().and_then(|r| r.as_reply()).and_then(|r| r.token.clone());
+        if let Some(tok) = tok {
+            let src2 = bed.client(fam, 0);
+            let a = Krpc::query(gen::tid(&mut rng), gen::rand_id(&mut rng), Query::AnnouncePeer { info_hash: ih, port: None, token: tok });
+            let answers = bed.ask(src2, &a).await;
+            report.count("announces_right_after_a_long_idle_period");
+            let acked = answers.len() == 1 && answers[0].as_reply().is_some();
+            if acked {
+                accepted_pairs.insert((ih, src2));
+            }
+            if !acked {
+                report.violation(
+                    "C05",
+                    "good-token-refused",
+                    format!("after a long idle period a token handed out a moment ago to the same IP was not acknowledged: {:?}", answers.first().map(|k| &k.body)),
+                    info.clone(),
+                );
+            }
+        }
+    }
+
     if !opts.read_only {
         for fam in [false, true] {
             for ip in 0..n_ips {
